@@ -1494,3 +1494,84 @@ def fresh_private_state(ctx, rule):
             input="a queued class-level watcher on Source.x assigns Source.y; later Other.z = 5 -> the watcher of Source.y runs a second time with the stale event")
     else:
         ctx.ok(rule, f, f.node, "_ClassPrivate / _InstancePrivate built twice with the defaults: no container (dispatch state, queues, stores, tables) is shared between two namespaces")
+
+
+def trigger_event_model(ctx, rule):
+    """Parameter._trigger_event (the dispatch of `p.<slot> = value` to the watchers of that slot) interpreted for an
+    instance-level Parameter (owner = the instance) and a class-level one (owner = the class), with the OWNER's batch
+    open / closed and two watchers of the slot.
+
+    Specification: every watcher is handed -- once, in order -- to the `_call_watcher` of the OWNER's namespace (an open
+    batch on the instance is invisible to the class's queue, and vice versa) with one event (what = the slot, name,
+    old, new); the flush `_batch_call_watchers()` runs on that same namespace iff its batch is not open."""
+    from engine.absint import Interp, Obj, Unsupported
+    from engine.loader import AnalysisError
+    f = ctx.repo.method(P + "Parameter", "_trigger_event")
+    problems, n = [], 0
+    for level, batch in [(l, b) for l in ("instance", "class") for b in (False, True)]:
+        the_cls = Obj("Cls")
+        ns_cls = Obj("namespace_of_the_class", _BATCH_WATCH=(batch if level == "class" else False), __tag__="class")
+        the_cls.attrs["param"] = ns_cls
+        inst = Obj("instance")
+        ns_inst = Obj("namespace_of_the_instance", _BATCH_WATCH=(batch if level == "instance" else False), __tag__="instance")
+        inst.attrs["param"] = ns_inst
+        owner = inst if level == "instance" else the_cls
+        own_ns = ns_inst if level == "instance" else ns_cls
+        w1, w2 = Obj("watcher_1"), Obj("watcher_2")
+        me = Obj("parameter", name="p", owner=owner, watchers={"bounds": [w1, w2]})
+        old, new = Obj("old_bounds"), Obj("new_bounds")
+        calls, flushes, made = [], [], []
+
+        def hook(fn, args, kwargs):
+            recv = getattr(hook.it, "current_receiver", None)
+            if fn.endswith("._call_watcher") and len(args) == 2:
+                calls.append((recv, args[0], args[1]))
+                return None
+            if fn.endswith("._batch_call_watchers") and not args:
+                flushes.append(recv)
+                return None
+            if fn == "Event":
+                e = Obj("event", **kwargs)
+                made.append(e)
+                return e
+            if fn == "type" and args:
+                return the_cls if args[0] is inst else Obj("type") if args[0] is the_cls else NotImplemented
+            if fn == "isinstance" and len(args) == 2 and args[0] in (inst, the_cls):
+                if args[1] == "<type type>":
+                    return args[0] is the_cls
+                raise Unsupported("isinstance(owner, %r)" % (args[1],))
+            return NotImplemented
+        hook.needs_receiver = True
+        it = Interp(ctx.hier, dyn=P + "Parameter", inline=lambda m: False, call_hook=hook)
+        hook.it = it
+        try:
+            outs = it.run_all(f, {f.params[0]: me, f.params[1]: "bounds", f.params[2]: old, f.params[3]: new})
+        except Unsupported as e:
+            raise AnalysisError("slot dispatch model: absint cannot interpret Parameter._trigger_event: %s" % e)
+        if len(outs) != 1 or outs[0].imprecise or outs[0].kind != "return":
+            raise AnalysisError("slot dispatch model: Parameter._trigger_event is not interpretable precisely (%s)" % (outs[0].notes[:2] if outs else "no outcome"))
+        n += 1
+        desc = "p.bounds = v on %s Parameter, the batch of its owner %s" % ("an instance-level" if level == "instance" else "a class-level", "open" if batch else "not open")
+        if [c[1] for c in calls] != [w1, w2]:
+            problems.append("%s: watchers handed over: %s, specification [watcher_1, watcher_2] (each once, in order)" % (desc, [getattr(c[1], "name", c[1]) for c in calls]))
+            continue
+        wrong_ns = [c for c in calls if c[0] is not own_ns]
+        if wrong_ns:
+            problems.append("%s: the watchers are dispatched through %s, specification: the namespace of the OWNER (%s) -- an open batch_call_watchers(obj) on the instance is invisible to the "
+                            "class's queue: 'p:bounds' dependants run immediately inside the batch, once per slot change" % (desc, getattr(wrong_ns[0][0], "name", wrong_ns[0][0]), own_ns.name))
+            continue
+        for _, _, e in calls:
+            if not isinstance(e, Obj) or e.attrs.get("what") != "bounds" or e.attrs.get("name") != "p" or e.attrs.get("old") is not old or e.attrs.get("new") is not new:
+                problems.append("%s: the event carries %s, specification (what='bounds', name='p', old = what the slot held, new = the assigned value)" % (
+                    desc, {k: getattr(v, "name", v) for k, v in e.attrs.items()} if isinstance(e, Obj) else e))
+                break
+        want_flush = [] if batch else [own_ns]
+        if flushes != want_flush:
+            problems.append("%s: flushes on %s, specification %s" % (desc, [getattr(x, "name", x) for x in flushes], [x.name for x in want_flush]))
+    ctx.abstract_cases += n
+    if problems:
+        ctx.fail(rule, f, f.node, "slot dispatch model: %s (%d disagreeing case(s))" % (problems[0], len(problems)), key=f.qualname + "::slot-dispatch-model",
+                 input="with batch_call_watchers(obj): obj.param.p.bounds = (0, 1); obj.param.p.bounds = (0, 2)   # @depends('p:bounds', watch=True)")
+    else:
+        ctx.ok(rule, f, f.node, "slot dispatch model, %d cases (instance / class Parameter x owner's batch open / closed): every watcher of the slot goes through the owner's namespace with one event; "
+                                "the flush runs there iff no batch is open" % n)
